@@ -11,7 +11,36 @@ from ..e2e import base_scenario, directed
 FAMILY = r"^move\.(outcome|alive_in_water|no_resurrection|shape)|^inv\.dead_stay_dead|^files\.dead_stay_dead"
 FAMILY_T = r"^track\.alive_in_water|^diff\.horizontal|^run\.crashed|^lattice|^setup\.valid"
 DRIVERS = {"e2e-coast": ("harness.e2e", "run_e2e", "LadimTrace", FAMILY),
+           "tracker-window-exhaustive": ("harness.trackdrv", "track_trace", "TrackTrace", FAMILY_T),
            "tracker-diffusion-coast": ("harness.trackdrv", "track_trace", "TrackTrace", FAMILY_T)}
+
+
+def window_scenarios(tier, seed):
+    """small-scope exhaustive, the space of MC_Tracker executed on the real Tracker: every land / sea pattern of a 3 x 2 window of
+    cells (islands, one-cell channels, bays) x every quarter-cell position in the sea cells of the valid region x every
+    displacement of -1.5 .. 1.5 cells in quarter cells (169 of them), moved in one call with a scripted per-particle velocity"""
+    rng = random.Random(seed + 31)
+    imax, jmax = 8, 7
+    masks = list(range(64)) if tier == "thorough" else rng.sample(range(64), 6)
+    disp = [64 * k for k in range(-6, 7)]
+    out = []
+    for m in masks:
+        M = [[1] * imax for _ in range(jmax)]
+        for b in range(6):
+            M[3 + b // 3][3 + b % 3] = (m >> b) & 1
+        pts = [(i * 256 + ox, j * 256 + oy) for j in range(2, jmax - 2) for i in range(2, imax - 2) if M[j][i]
+               for ox in (-96, -32, 32, 96) for oy in (-96, -32, 32, 96)]
+        parts = [(x, y, dx, dy) for (x, y) in pts for dx in disp for dy in disp]
+        rng.shuffle(parts)
+        for c in range(0, len(parts), 6000):
+            ch = parts[c:c + 6000]
+            n = len(ch)
+            out.append(dict(imax=imax, jmax=jmax, M=M, H=[[40] * imax for _ in range(jmax)], subgrid=None, dt=64, dx=128, dy=128,
+                            adv=rng.choice(["EF", "RK2", "RK4"]), D=0.0, Dz=0.0, s16=0, sz16=0, vadv=False,
+                            x=[p[0] for p in ch], y=[p[1] for p in ch], z=[160] * n, active=[rng.random() > 0.05 for _ in range(n)],
+                            steps=[dict(un=[p[2] for p in ch], vn=[p[3] for p in ch], wn=[0] * n)], stream=[1],
+                            cls=dict(mask=m, hdiff=False, vdiff=False, vadv=False, advect=True, flat=True)))
+    return out
 
 
 def diffusion_scenarios(tier, seed):
@@ -41,6 +70,11 @@ def run(tier, seed):
     dtr = pmap("harness.trackdrv", "track_trace", ds)
     rep.add_tv("tracker-diffusion-coast", "TrackTrace", ds, dtr, tlc.validate_traces("TrackTrace", dtr), family=FAMILY_T)
     rep.require_counts("tracker-diffusion-coast", {"tkilled": 10, "tcancelled": 10})
+    ws = window_scenarios(tier, seed)
+    wtr = pmap("harness.trackdrv", "track_trace", ws)
+    rep.add_tv("tracker-window-exhaustive", "TrackTrace", ws, wtr, tlc.validate_traces("TrackTrace", wtr, batch_events=4, timeout=1800), family=FAMILY_T)
+    rep.require_counts("tracker-window-exhaustive", {"tcancelled": 1000})
+    rep.extra["window_particle_moves"] = sum(len(s["x"]) for s in ws)
     rep.nontrivial = len({repr((s["M"], s["fm"], s["rows"])) for s in scs if s["cls"]["nsteps"] >= 3})
     rep.rule = ("10 x 9 grids with 6-13 random land cells, strong uniform flow in a random direction (0.35-0.55 cell per step), releases in "
                 "several sea cells, EF/RK2/RK4, scripted kills and freezes; non-trivial = distinct (mask, flow, releases) with >= 3 steps; "
